@@ -24,13 +24,26 @@ import time
 
 ROOT = os.path.dirname(os.path.dirname(os.path.abspath(__file__)))
 REPO = os.environ.get("VERIF_REPO", "/repo")
-COQ = os.path.join(ROOT, "coq")
 BUILD = os.path.join(ROOT, "build")
-TARGET = os.path.join(BUILD, "target")
 _ALT = os.path.realpath(REPO) != "/repo"
-# runs against a private scratch worktree (mutation tests) never touch the committed evidence
-EVID = os.path.join(BUILD, "alt-evidence") if _ALT else os.path.join(ROOT, "evidence")
-REPLAY = os.path.join(BUILD, "alt-replay") if _ALT else os.path.join(ROOT, "replay")
+_ALT_TAG = hashlib.sha1(os.path.realpath(REPO).encode()).hexdigest()[:8] if _ALT else ""
+# A run against a private scratch worktree (VERIF_REPO, used for testing the checks against breaking
+# changes) is fully isolated: its own copy of the Coq tree (so regenerated coq/gen files and rebuilt
+# .vo files never disturb normal runs), its own cases/audit/target directories, its own evidence.
+WORK = os.path.join(BUILD, "alt-" + _ALT_TAG) if _ALT else BUILD
+COQ = os.path.join(WORK, "coq") if _ALT else os.path.join(ROOT, "coq")
+TARGET = os.path.join(BUILD, "target")
+EVID = os.path.join(WORK, "evidence") if _ALT else os.path.join(ROOT, "evidence")
+REPLAY = os.path.join(WORK, "replay") if _ALT else os.path.join(ROOT, "replay")
+
+
+def ensure_alt_coq():
+    if not _ALT:
+        return
+    os.makedirs(WORK, exist_ok=True)
+    subprocess.run(["rsync", "-a", "--delete", "--exclude", ".lia.cache", os.path.join(ROOT, "coq") + "/", COQ + "/"], check=True)
+
+
 HOOK_CFG = "aranya_core_verif"
 
 ALLOWED_AXIOMS = {
@@ -77,8 +90,8 @@ class Lock:
     """Serialises make / cargo across checks that may run concurrently."""
 
     def __init__(self, name):
-        os.makedirs(BUILD, exist_ok=True)
-        self.path = os.path.join(BUILD, name + ".lock")
+        os.makedirs(WORK, exist_ok=True)
+        self.path = os.path.join(WORK if name == "coq" else BUILD, name + ".lock")
 
     def __enter__(self):
         self.f = open(self.path, "w")
@@ -369,14 +382,14 @@ def prove(ctx, extra_targets=()):
         ctx.oblige("pinned:" + th, re.search(r"\bCheck\s+%s\s*:" % re.escape(th), src) is not None
                    or re.search(r"\bCheck\s+\(?%s\b" % re.escape(th), src) is not None,
                    "no `Check %s : stmt.` pin in %s" % (th, prop))
-    os.makedirs(os.path.join(BUILD, "audit"), exist_ok=True)
-    av = os.path.join(BUILD, "audit", "Audit_%s.v" % pid)
+    os.makedirs(os.path.join(WORK, "audit"), exist_ok=True)
+    av = os.path.join(WORK, "audit", "Audit_%s.v" % pid)
     with open(av, "w") as f:
         f.write("Require Import Aranya.props.%s.\n" % pid)
         for th in thms:
             f.write('Goal True. idtac "@@BEGIN %s". exact I. Qed.\nPrint Assumptions %s.\n' % (th, th))
         f.write('Goal True. idtac "@@END". exact I. Qed.\n')
-    rc, out = sh(["coqc", "-Q", COQ, "Aranya", "-o", av + "o", av], cwd=os.path.join(BUILD, "audit"), timeout=600)
+    rc, out = sh(["coqc", "-Q", COQ, "Aranya", "-o", av + "o", av], cwd=os.path.join(WORK, "audit"), timeout=600)
     ctx.checker_cmds.append("coqc Audit_%s.v (Print Assumptions per theorem)" % pid)
     if rc != 0:
         ctx.oblige("audit:print-assumptions", False, out[-3000:])
@@ -423,7 +436,7 @@ def prove(ctx, extra_targets=()):
 
 def coq_eval(ctx, name, body, timeout=900):
     """Compile a generated cases file against the built development; returns stdout."""
-    d = os.path.join(BUILD, "cases", ctx.pid)
+    d = os.path.join(WORK, "cases", ctx.pid)
     os.makedirs(d, exist_ok=True)
     path = os.path.join(d, name + ".v")
     with open(path, "w") as f:
@@ -517,10 +530,10 @@ def cargo_build(ctx, crate, profile="dev", hooks=True, features=None, extra_rust
     """Build harness/<crate> against /repo (path deps) and return the binary path."""
     cdir = os.path.join(ROOT, "harness", crate)
     alt = ""
-    if os.path.realpath(REPO) != "/repo":
+    if _ALT:
         # private scratch worktree (mutation testing): copy the crate with its path deps redirected
-        alt = hashlib.sha1(os.path.realpath(REPO).encode()).hexdigest()[:8]
-        adir = os.path.join(BUILD, "alt-" + alt, crate)
+        alt = _ALT_TAG
+        adir = os.path.join(WORK, "harness", crate)
         if os.path.exists(adir):
             shutil.rmtree(adir)
         shutil.copytree(cdir, adir, ignore=shutil.ignore_patterns("target", "Cargo.lock"))
@@ -587,6 +600,7 @@ def main(argv):
     seed = int(os.environ.get("VERIF_SEED", "1"))
     tier = a.tier if a.tier in ("quick", "thorough") else "quick"
     ctx = Ctx(a.pid, tier, seed, a.replay)
+    ensure_alt_coq()
     path = os.path.join(ROOT, "checks", a.pid + ".py")
     spec = importlib.util.spec_from_file_location("check_" + a.pid, path)
     mod = importlib.util.module_from_spec(spec)
